@@ -260,6 +260,12 @@ func buildMSI(env *Env, v Variant) ([]*Artifact, error) {
 		d := append(append([]byte{}, s...), bytes.Repeat([]byte{0xcc}, c.ss)...)
 		a.Semantic = append(a.Semantic, SemMut{Class: "append-after-container", Site: "one-free-sector", Data: d, Assert: false, Why: "an unallocated sector after the last one is not reachable from any stream; Windows Installer never reads it"})
 	}
-	a.Semantic = append(a.Semantic, cmsSemantics(env, v, mi.blob(s), func(nb []byte) ([]byte, error) { return mi.embed(s, nb) })...)
+	a.Semantic = append(a.Semantic, cmsSemantics(env, v, mi.blob(s), func(nb []byte) ([]byte, error) {
+		if len(nb) > len(mi.sigOffs) {
+			// a longer CMS: make room by dropping unrelated certificates of the bundle
+			nb = cmsDropFillers(nb, len(mi.sigOffs))
+		}
+		return mi.embed(s, nb)
+	})...)
 	return []*Artifact{a}, nil
 }
